@@ -39,6 +39,10 @@ fn gen(seed: u64) -> PlanTwin {
         if i.n > 8 {
             i.n = 2 + rng.below(7) as u8;
         }
+        // a single aggregator is an admissible instance: no helper, the leader's mask is zero
+        if rng.chance(1, 12) {
+            i.n = 1;
+        }
         crate::inst::pick_xof(rng, &mut i);
         i
     };
